@@ -133,6 +133,23 @@ def dedup (l : List Str) : List Str := l.foldl (fun acc x => if acc.contains x t
 
 def sameSet (a b : List Str) : Bool := a.all b.contains && b.all a.contains
 
+/-- the genetic code of a table as a value: (letter, sorted triplets), sorted by letter; weights dropped -/
+def codeOf (t : Table) : List (Str × List Str) :=
+  (canonTable t).aminoAcids.map fun a => (a.letter, a.codons.map (·.triplet))
+
+/-- the codes of the 25 regenerated default tables -/
+def defaultCodes : List (List (Str × List Str)) := Spec.Ncbi.ids.map fun n => codeOf (getCodonTable n)
+
+/-- C07 quantifies over "the 25 default tables and tables re-weighted from coding sequences".  A table is such a
+table iff (a) it satisfies `WF`, (b) its genetic code is that of one of the 25 default tables (only the weights
+differ), and (c) every usage total fits a 32-bit `int` (≤ 2^31 − 1: the weights are codon counts of a sequence; `int`
+is 32 bits wide on some platforms).  Text tables that are hand-written variations (merged entries, swapped letters,
+totals of 10^12 …) are DRIFT PROBES: compared with the model, never judged — an implementation may validate and
+reject them.  (The theorems cover more: every `WF` table, totals below 2^50.) -/
+def inQuant (t : Table) : Bool :=
+  decide (WF t) && defaultCodes.contains (codeOf t) &&
+  t.aminoAcids.all fun a => decide (sumWeights a ≤ 2147483647)
+
 /-- is the table of the case inside C07's quantifier?  Decidable from the case alone: one of the 25 default tables,
 a re-weighting of one, or a text table satisfying `WF`.  For such a case a request the harness does not answer
 (crash, timeout, panic, error for the whole request) is a FAILURE: "rejected with an error rather than a crash". -/
@@ -142,7 +159,7 @@ def specInDomain (spec : String) : Bool :=
     match (spec.drop 3).toString.splitOn ":" with
     | n :: _ => Spec.Ncbi.ids.contains (natOfStr n)
     | _ => false
-  else if spec.startsWith "txt:" then decide (WF (parseTable (spec.drop 4).toString))
+  else if spec.startsWith "txt:" then inQuant (parseTable (spec.drop 4).toString)
   else false
 
 def noAnswer (kind spec st : String) : Verdict :=
@@ -178,7 +195,7 @@ def judgeOpt (kind spec : String) (p : Str) (n : Nat) (out : List String) : Verd
     | some (t, k) =>
       let (corr, j, tag, detail) := judgeRuns kind t k p n (runsOf rest)
       let corr := corr && tableSame k reported
-      { corr := corr, judge := if decide (WF t) then some j else none,
+      { corr := corr, judge := if inQuant t then some j else none,
         cls := (if p.length ≤ 1 then "triv:" else "") ++ (if kind == "union" then "stat:union/" else "opt/") ++ tag,
         detail := detail }
   | st :: _ => noAnswer "opt" spec st
@@ -205,7 +222,7 @@ def judgeHist (spec : String) (n : Nat) (steps : List String) (out : List String
               let t := parseTable tt
               let p := (step.drop 2).toString.toList
               let (c1, j1, _, d1) := judgeRuns "opt" t .txt p n (runsOf (rest'.take (4 * n)))
-              go fuel more (rest'.drop (4 * n)) (corr && c1) (j && j1) (wf && decide (WF t)) (if d1.isEmpty then detail else d1) (nO + 1)
+              go fuel more (rest'.drop (4 * n)) (corr && c1) (j && j1) (wf && inQuant t) (if d1.isEmpty then detail else d1) (nO + 1)
             | _ => (false, false, wf, "reply shape", nO)
           else if step.startsWith "T:" then
             match rest with
@@ -254,7 +271,7 @@ def judgeFreq (spec : String) (letter : Str) (per calls : Nat) (out : List Strin
         let sd := Float.sqrt (Float.ofNat total * pr * (1 - pr))
         Float.abs (Float.ofNat cnt - mean) ≤ 8 * sd + 1
       let j := bad == "0" && cs.all (fun (c, _) => elig.contains c) && elig.all band && sameSet elig (items.map (·.1))
-      { corr := corr, judge := if decide (WF t) && letter.length == 1 && !elig.isEmpty then some j else none,
+      { corr := corr, judge := if inQuant t && letter.length == 1 && !elig.isEmpty then some j else none,
         cls := "stat:freq/" ++ kindTag k ++ "/" ++ toString elig.length ++ "codons",
         detail := if corr && j then "" else
           "expected " ++ ",".intercalate (items.map fun it => String.ofList it.1 ++ "=" ++ toString (Float.ofNat total * Float.ofInt it.2 / Float.ofInt mx)) }
@@ -281,7 +298,7 @@ def judgeRp (length : Int) (spec : String) (out : List String) : Verdict :=
       let j := if length ≤ 2 then pst == "err"
         else pst == "ok" && proteinShape length p &&
           (if specEncodable t p then runOk t k p run else ost == "err")
-      { corr := corr, judge := if decide (WF t) then some j else none,
+      { corr := corr, judge := if inQuant t then some j else none,
         cls := (if length ≤ 2 then "triv:" else "") ++ "rp/" ++ kindTag k ++ "/" ++ (if length ≤ 2 then "short" else unencReason t p),
         detail := if corr && j then "" else "model: protein " ++ mst ++ ", optimize " ++ ms }
   | st :: _ => noAnswer "rp" spec st
@@ -384,7 +401,7 @@ def judgeFreqMix (spec : String) (p : Str) (calls : Nat) (out : List String) : V
       let res := letters.map okLetter
       let corr := bad == "0" && tableSame k reported && res.all (·.1) && per.length == letters.length
       let j := bad == "0" && res.all (·.2)
-      { corr := corr, judge := if decide (WF t) && specEncodable t p && !p.isEmpty then some j else none,
+      { corr := corr, judge := if inQuant t && specEncodable t p && !p.isEmpty then some j else none,
         cls := "stat:freqmix/" ++ kindTag k ++ "/" ++ toString letters.length ++ "letters",
         detail := if corr && j then "" else "letters out of band or support: " ++
           String.ofList ((letters.zip res).filterMap fun (l, r) => if r.1 && r.2 then none else some l) }
@@ -409,7 +426,7 @@ def judgePairs (spec : String) (unit : Str) (reps calls : Nat) (out : List Strin
       let j := ix.all fun a => iy.all fun b =>
         band total (shareOf ix a.1 * shareOf iy b.1) (match cs.find? (·.1 == a.1 ++ b.1) with | some e => e.2 | none => 0)
       let corr := bad == "0" && tableSame k reported && support
-      { corr := corr, judge := if decide (WF t) && !ix.isEmpty && !iy.isEmpty then some (bad == "0" && support && j) else none,
+      { corr := corr, judge := if inQuant t && !ix.isEmpty && !iy.isEmpty then some (bad == "0" && support && j) else none,
         cls := "stat:pairs/" ++ kindTag k ++ "/" ++ (if x == y then "same-letter" else "two-letters"),
         detail := if corr && j then "" else "pair counts outside the independence band" }
   | st :: _, _ => noAnswer "pairs" spec st
@@ -439,7 +456,7 @@ def judgeReplay (spec : String) (p : Str) (out : List String) : Verdict :=
         (st != "ok" || replayed || (ownGenerator && modelMember t p dna.toList))
       let enc := specEncodable t p
       let j := if enc && !p.isEmpty then runOk t k p run else st == "err"
-      { corr := corr, judge := if decide (WF t) then some j else none,
+      { corr := corr, judge := if inQuant t then some j else none,
         cls := "replay/" ++ kindTag k ++ "/" ++ (if st != "ok" then "no-run" else if found == "1" then (if how == "probe-seed" then "seed-found-NOT-RESEEDED" else "seed-found")
                 else if ownGenerator then "OWN-GENERATOR-NO-POINTWISE-TIE-statistics-only" else "SEED-NOT-FOUND"),
         detail := if corr && j then "" else "model status " ++ ms ++ "; replay of the model on the reported draws " ++
